@@ -937,6 +937,13 @@ struct Value {
     }
 
     void Merge(const Value &val) {
+        if (this == &val) {
+            // Merging a value into itself: read from a copy, the storage moves while it grows.
+            Value copy{val};
+            Merge(Memory::Move(copy));
+            return;
+        }
+
         if (isUndefined()) {
             // A moved-from value is Undefined but still holds its old bits.
             reset();
